@@ -28,6 +28,7 @@ RULE = (
     "rank, flat - which must raise). rhs values carry the operation index, so overlapping writes are "
     "distinguishable. State key = exact tuple of all entries + dims signature (no abstraction). A transition is "
     "non-trivial when it writes or must be rejected."
+    " Also: falsy item labels (0, ''), keys naming single items in another order than stored, one-shot iterator item lists, int64 / float32 ndarrays, a zero-item surplus dimension."
 )
 ASSUMPTIONS = [
     "finite rhs value alphabet (integers tagged by operation and position); sums over surplus dims are exact",
